@@ -909,15 +909,16 @@ def r06l(R):
             'a quoted string is accepted as the value of a numeric register '
             '(hue "abc"): the script compiles and the VM faults')
     op = A.func(PARSE, 'Parser._operand')
-    lens = [n for n in A.cfg(op).nodes if n.kind == 'cond' and isinstance(n.ast, ast.Compare)
-            and isinstance(n.ast.left, ast.Call) and norm(n.ast.left.func) == 'len']
-    ok = len(lens) == 1 and (
-        (isinstance(lens[0].ast.ops[0], ast.Gt)
-         and A.try_fold(lens[0].ast.comparators[0], op, 'x') == 0)
-        or (isinstance(lens[0].ast.ops[0], ast.GtE)
-            and A.try_fold(lens[0].ast.comparators[0], op, 'x') == 1)
-        or (isinstance(lens[0].ast.ops[0], ast.NotEq)
-            and A.try_fold(lens[0].ast.comparators[0], op, 'x') == 0))
+    # the string a quoted operand denotes, tested for "not empty" in any
+    # notation (len(s) > 0, len(s) != 0, s, not s on the other edge ...)
+    strs = set(norm(n.ast.targets[0]) for n in A.cfg(op).nodes
+               if n.kind == 'stmt' and isinstance(n.ast, ast.Assign)
+               and isinstance(n.ast.value, ast.Call)
+               and 'current_str' in norm(n.ast.value.func))
+    lens = [n for n in A.cfg(op).nodes if n.kind == 'cond'
+            and A.emptiness(n.ast) is not None
+            and (A.emptiness(n.ast)[0] in strs or isinstance(n.ast, ast.Compare))]
+    ok = len(lens) == 1
     R.check(op, 'a light name of any length > 0 is an operand', ok,
             'one-character light names are not accepted as operands')
     # WAIT before an action unless it is staged inside a matrix
